@@ -167,7 +167,14 @@ pub fn install_panic_hook() {
 pub fn guarded<T>(f: impl FnOnce() -> T) -> Result<T, Caught> {
     LAST_PANIC.with(|p| *p.borrow_mut() = None);
     match catch_unwind(AssertUnwindSafe(f)) {
-        Ok(v) => Ok(v),
+        Ok(v) => {
+            // a panic that the code under test caught itself is still a panic: the application's panic hook
+            // ran, and a `panic = "abort"` build would have died there
+            if let Some((msg, loc)) = LAST_PANIC.with(|p| p.borrow_mut().take()) {
+                return Err(Caught::Panic { msg: format!("(caught inside the library) {}", msg), loc });
+            }
+            Ok(v)
+        }
         Err(payload) => {
             if let Some(np) = payload.downcast_ref::<NoProgress>() {
                 return Err(Caught::NoProgress(np.0.clone()));
